@@ -31,6 +31,16 @@ def assume(cond):
     raise Vacuous()
 
 
+def unsupported(why=""):
+    """the harness' stand-in object cannot follow what the code did: this path is inconclusive (never a
+    counterexample, never a pass)"""
+    if _MODE["symbolic"]:
+        from crosshair.util import CrosshairUnsupported
+
+        raise CrosshairUnsupported(why)
+    raise Vacuous()
+
+
 def real(x):
     """Concretise x (solver picks, one path per value); identity when concrete."""
     if _MODE["symbolic"]:
